@@ -472,3 +472,78 @@ func vc_C02_union_owns_operands() {
 		vfAssert(false, "Union2D evaluates each operand it was built from exactly once")
 	}
 }
+
+// Loft3D: both profiles are evaluated once at (x, y); the mix is linear in z
+// between the end planes, clamped outside; the documented combination with the
+// z extent and the rounding follows (independent restatement of the cases).
+func vc_C02_loft3d() {
+	vfTimeouts(3000, 20000)
+	a, b := vfNewLeaf2("a", 0), vfNewLeaf2("b", 0)
+	h, round := vfPosParam("h", 100), vfReal("round")
+	vfAssume(vfAnd(round >= 0, 2*round < h))
+	s, err := Loft3D(a, b, h, round)
+	vfAssume(err == nil)
+	p := vfPoint3("p")
+	r := s.Evaluate(p)
+	vfReach("loft")
+	vfOnce2(a, v2.Vec{X: p.X, Y: p.Y}, "Loft3D bottom profile")
+	vfOnce2(b, v2.Vec{X: p.X, Y: p.Y}, "Loft3D top profile")
+	if len(a.v) != 1 || len(b.v) != 1 {
+		return
+	}
+	hh := h/2 - round
+	// mix factor: 0 at z = -hh, 1 at z = +hh, clamped
+	k := vfIteF(p.Z <= -hh, 0, vfIteF(p.Z >= hh, 1, (p.Z+hh)/(2*hh)))
+	m := a.v[0] + k*(b.v[0]-a.v[0])
+	dz := vfIteF(p.Z < 0, -p.Z, p.Z) - hh
+	e := r + round
+	tol := vfTol(1e-6, 1e-7)
+	near := func(x, y float64) bool { return vfAnd(x-y <= tol, y-x <= tol) }
+	vfAssert(vfImplies(vfAnd(dz <= 0, m >= 0), near(e, m)), "Loft3D within the z extent, outside the mixed profile: the mixed profile distance")
+	vfAssert(vfImplies(vfAnd(dz <= 0, m < 0), near(e, vfMaxF(m, dz))), "Loft3D within the z extent, inside the mixed profile: max(profile, z)")
+	vfAssert(vfImplies(vfAnd(dz > 0, m < 0), near(e, dz)), "Loft3D beyond the z extent, inside the mixed profile: the z distance")
+	vfAssert(vfImplies(vfAnd(dz > 0, m >= 0), vfAnd(e >= 0, near(e*e, m*m+dz*dz))), "Loft3D beyond the z extent, outside the mixed profile: the corner distance")
+}
+
+// RotateUnion3D with a concrete step (rotation about z by 1 rad, about x by 0.7 rad, or about
+// z by 2 pi / 3 combined with a symbolic translation) and 2..4 copies: copy i evaluates the
+// operand at step^-i p (the inverse is built here from the inverse rotation and translation),
+// the result is the minimum, and the box contains every solid point.
+func vc_C02_rotateunion3d() {
+	vfTimeouts(3000, 20000)
+	a := vfNewLeaf3("a", vfK1)
+	num := 2 + vfCase("num", 3)
+	var step, inv M44
+	switch vfCase("step", 3) {
+	case 0:
+		step, inv = RotateZ(1), RotateZ(-1)
+	case 1:
+		step, inv = RotateX(0.7), RotateX(-0.7)
+	case 2:
+		t := vfPoint3("t")
+		step = Translate3d(t).Mul(RotateZ(Tau / 3))
+		inv = RotateZ(-Tau / 3).Mul(Translate3d(t.Neg()))
+	}
+	s := RotateUnion3D(a, num, step)
+	p := vfPoint3("p")
+	bb := s.BoundingBox()
+	r := s.Evaluate(p)
+	vfReach("rotateunion")
+	vfAssert(len(a.q) == num, "RotateUnion3D evaluates the operand once per copy")
+	if len(a.q) != num {
+		return
+	}
+	x := p
+	m := a.v[0]
+	for i := 0; i < num; i++ {
+		vfAssert(vfNear3(a.q[i], x), "RotateUnion3D copy i evaluates the operand at step^-i p")
+		if i > 0 {
+			m = vfMinF(m, a.v[i])
+		}
+		x = inv.MulPosition(x)
+	}
+	vfAssert(r == m, "RotateUnion3D is the minimum over the copies")
+	in := r < -vfTol(1e-6, 1e-7)
+	tol := vfTol(1e-5, 1e-6)
+	vfAssert(vfImplies(in, vfAnd(vfAnd(bb.Min.X <= p.X+tol, p.X <= bb.Max.X+tol), vfAnd(vfAnd(bb.Min.Y <= p.Y+tol, p.Y <= bb.Max.Y+tol), vfAnd(bb.Min.Z <= p.Z+tol, p.Z <= bb.Max.Z+tol)))), "RotateUnion3D: every solid point lies in the bounding box")
+}
